@@ -576,3 +576,2007 @@ Open Scope Z_scope.
 
 
 # ==== C03 check
+
+import copy
+import re
+
+C03_LOG = """
+C03 check (PART 2) - running log of decisions.
+
+THE TIE.  Every case is an IR model built through the PUBLIC API only from a JSON recipe: construction ops
+(ir.Tensor / StringTensor / ExternalTensor (never read) / LazyTensor / PackedTensor / TensorProtoTensor, ir.Value,
+ir.Node with created or supplied outputs, ir.Graph, ir.Function, ir.Model) followed by an edit history through
+public mutators (graph.append/extend/insert_before/insert_after/remove(safe)/sort, "move" = remove + insert,
+node.replace_input_with/resize_inputs/resize_outputs, value.replace_all_uses_with, value.name/type/shape/dtype/
+doc_string/metadata_props/const_value setters, graph.inputs/outputs append/pop/insert/__setitem__,
+graph.initializers[...]= / register_initializer / pop, node/graph/function/model header setters, attributes
+add/pop).  An op the API rejects is recorded (`reject:<Exc>`) and the history goes on.  20-25% of the cases get one
+deliberate breakage of a hypothesis of `serializable` (BREAKS).  Per case, with ONE Interner:
+  heap h, model m := ir_heap(model)            o0 := ir_obs(model)                 (before to_proto)
+  q  := ProtoConv(to_proto(model)) | None      o1 := ir_obs(model)                 (after to_proto)
+  o2 := ir_obs(from_proto(to_proto(model))) | None
+and Coq evaluates (vm_compute, one `failing` list per predicate): agree_heap h m o0 (converter self-check),
+agree_ser (ser_model = the proto the code wrote, or both raise), agree_after_ser (the heap after ser_model = the IR
+after to_proto: only tensor names moved), agree_roundtrip (deser_model (ser_model h) = the IR the code read back),
+iso_statement_b (the statement of C03_iso on this state) and Bool.eqb (inv_b h && serializable_b h m) py_flag
+where py_flag = (py_serializable(model) == [] and c17.oracle_invariants(model) == []).
+THE ORACLE (property itself, public accessors only): (a) a deep snapshot of every accessor of every reachable object
+(including producers/consumers outside the model) is unchanged by to_proto except that the name of an initializer's
+tensor becomes the name of a value holding it - enforced always, also when to_proto raises; (b) to_proto twice gives
+equal protos; (c) IsoCheck(model, from_proto(to_proto(model))): simultaneous traversal building a bijection on
+graphs / nodes / values (written independently of Canon / ir_obs) - enforced when the model satisfies the
+hypothesis (py_serializable breaks nothing outside BENIGN, and the use-def invariants hold).
+
+READINGS (weaker reading taken where the English is ambiguous)
+* "isomorphic": same node order, op identifiers, inputs with None preserved, outputs modulo TRAILING outputs with
+  an empty name (serde._remove_trailing_outputs drops them by design), value names, types, shapes, doc strings,
+  metadata, const tensors (dtype, shape, bytes / string data / external location+offset+length, doc, metadata),
+  attributes in order (floats compared as float32, which is what the format stores), nested graphs recursively,
+  initializer keys in order, flags, producer/index, uses as SETS, owning graph, functions (identifier order, doc,
+  opset imports, metadata; function attributes compared as a name->attribute MAPPING: the proto keeps attributes
+  with a default and those without in two lists, so their interleaving cannot be represented), model header.
+* None == "" for graph names, node names, doc strings, producer_name/..., model_version None == 0 (absent proto
+  fields read back as None).  A Node whose name is None reads back as "" - Iso.serializable_b demands Some name,
+  the Python oracle accepts it (BENIGN "node-name-none").
+* Accepted documented deviation: an initializer without type AND shape (and not a graph input) gets them from its
+  tensor on the way back (serde: "Users expect initialized values to have shape and type information"); the
+  Gallina hypothesis excludes that state, the Python oracle accepts either (BENIGN "init-no-info").
+* Not carried by the format, hence not compared: Node.version, opset_imports of subgraphs (only the model's and the
+  functions' are serialized), the name of a function's underlying Graph, ExternalTensor.base_dir, meta stores.
+* "aligning each initializer tensor's own name": a tensor shared by two initializers ends with the name of the
+  last one serialized; accepted (the name of *a* value holding it).
+* const_value on a value that is not an initializer is documented as ignored by serialization
+  (Value.const_value docstring): such states are outside `serializable` (condition "const-not-init"; added to
+  Iso.serializable_b by this check after it accepted a state whose round trip is not isomorphic).
+* Overloaded functions exist from IR version 10: the generator does not combine overloads with ir_version < 10
+  (the IR<10 experimental function value-info names cannot carry an overload).
+* The property quantifies over consistent IR states: a REJECTED edit can leave the IR inconsistent
+  (GraphOutputs.__setitem__ clears the old value's flag/owner before _set_graph raises for the new one: a C01-type
+  defect, reported to the orchestrator, not a C03 finding); then (c) is not enforced and py_flag is false.
+* ir_version < 10 with functions uses the experimental value-info format the model leaves out: Coq comparison
+  skipped (`unmodelled`), oracle still runs.  Device configurations (IR 11) are not generated: modelled-not-verified.
+
+MODELLED, NOT VERIFIED: leaf payloads are tokens from the library's own leaf (de)serializers (C02/C04); the leaf
+normalisation table (Model.norm_pay) is supplied per case; recursion limit (fuel); quantization annotations; device
+configurations; per-subgraph opset imports.
+
+FINDINGS
+* shape-without-type (known_findings.d/C03.json, proposed_fixes/C03-shape-without-type.diff): a Value with a shape
+  but no type loses the shape on to_proto (serialize_shape_into finds no type field and skips with a warning) although
+  tensor_type{shape} without elem_type is representable and is exactly what the deserializer reads back as
+  (type None, shape S).  Also lossy for proto -> IR -> proto.  In the Gallina model this is the leaf normalisation
+  norm_pay, so the structural theorem is unaffected; the Python oracle reports it (attributed by repair: clearing
+  those shapes makes the oracle pass).
+* Side observation (C01 territory): `graph.outputs[i] = v` with v owned by another graph raises ValueError after
+  clearing is_graph_output/_graph of the old value, which stays in the list.
+
+PART 1 CHANGES (C17 re-checked): function attribute tokens order-insensitive; attr_key/ir_attr_entry take
+tensor_key_fn so tensor-valued node attributes are keyed as serialized.
+
+MUTANTS (scratch worktree of /repo; see the final report for the table): every one reported VIOLATION.
+"""
+
+# --------------------------------------------------------------------------- recipes: building IR models through the public API
+
+NAME_POOL = ["a", "b", "c", "d", "e", "f", "g", "h"]
+DTYPES = [1, 7, 6, 2, 9, 10, 11]           # FLOAT INT64 INT32 UINT8 BOOL FLOAT16 DOUBLE
+
+
+class _Missing(Exception):
+    """An op names a handle that does not exist (its creating op was dropped by the shrinker)."""
+
+
+class Env:
+    """Handle registries while a recipe is applied (handles are the strings chosen by the generator)."""
+
+    def __init__(self):
+        self.v, self.n, self.g, self.t, self.f = {}, {}, {}, {}, {}
+        self.model = None
+        self.log: list = []           # (op kind, status)
+
+    def V(self, h):
+        if h is None:
+            return None
+        if h not in self.v:
+            raise _Missing(h)
+        return self.v[h]
+
+    def N(self, h):
+        if h not in self.n:
+            raise _Missing(h)
+        return self.n[h]
+
+    def G(self, h):
+        if h not in self.g:
+            raise _Missing(h)
+        return self.g[h]
+
+    def T(self, h):
+        if h is None:
+            return None
+        if h not in self.t:
+            raise _Missing(h)
+        return self.t[h]
+
+
+def mk_type(spec):
+    import onnx_ir as ir
+    if spec is None:
+        return None
+    kind, arg, den = spec
+    if kind == "T":
+        return ir.TensorType(ir.DataType(arg), denotation=den)
+    if kind == "S":
+        return ir.SparseTensorType(ir.DataType(arg), denotation=den)
+    if kind == "Seq":
+        return ir.SequenceType(mk_type(arg), denotation=den)
+    return ir.OptionalType(mk_type(arg), denotation=den)
+
+
+def mk_shape(spec):
+    import onnx_ir as ir
+    if spec is None:
+        return None
+    return ir.Shape(spec["dims"], denotations=spec.get("den"), frozen=bool(spec.get("frozen")))
+
+
+def mk_tensor(op):
+    import numpy as np
+    import onnx
+    import onnx_ir as ir
+    from onnx_ir import serde
+    kind, name, dt, dims, data = op["kind"], op.get("name"), ir.DataType(op["dtype"]), list(op["dims"]), op["data"]
+    doc, meta = op.get("doc"), (dict(op["meta"]) if op.get("meta") else None)
+    if kind == "ext":
+        return ir.ExternalTensor(op["loc"], op.get("offset"), op.get("length"), dt, shape=ir.Shape(dims),
+                                 name=name, doc_string=doc, metadata_props=meta, base_dir=op.get("base_dir", ""))
+    if kind == "str":
+        return ir.StringTensor([bytes(x) for x in data], shape=ir.Shape(dims), name=name, doc_string=doc,
+                               metadata_props=meta)
+    if kind == "packed":
+        return ir.PackedTensor(np.array(data, dtype=np.uint8), ir.DataType.INT4, shape=ir.Shape(dims), name=name,
+                               doc_string=doc, metadata_props=meta)
+    arr = np.array(data, dtype=np.float64).astype(dt.numpy()).reshape(dims)
+    if kind == "lazy":
+        return ir.LazyTensor(lambda a=arr: ir.Tensor(a), dt, ir.Shape(dims), cache=bool(op.get("cache")), name=name,
+                             doc_string=doc, metadata_props=meta)
+    if kind == "tpt":
+        p = onnx.numpy_helper.from_array(arr, name or "")
+        if not op.get("raw", True) and op["dtype"] in (1, 6, 7):
+            p = onnx.helper.make_tensor(name or "", op["dtype"], dims, arr.flatten().tolist())
+        if name is None:
+            p.ClearField("name")
+        if doc:
+            p.doc_string = doc
+        for k, v in sorted((meta or {}).items()):
+            e = p.metadata_props.add()
+            e.key, e.value = k, v
+        return serde.deserialize_tensor(p)
+    return ir.Tensor(arr, name=name, doc_string=doc, metadata_props=meta)
+
+
+def mk_attr(env: Env, a):
+    """Attribute spec -> ir.Attr (None when a referenced graph/tensor handle is missing)."""
+    import onnx_ir as ir
+    k, nm, doc = a["k"], a["name"], a.get("doc")
+    try:
+        if k == "int":
+            return ir.AttrInt64(nm, a["v"], doc_string=doc)
+        if k == "float":
+            return ir.AttrFloat32(nm, float(a["v"]), doc_string=doc)
+        if k == "str":
+            return ir.AttrString(nm, a["v"], doc_string=doc)
+        if k == "ints":
+            return ir.AttrInt64s(nm, a["v"], doc_string=doc)
+        if k == "floats":
+            return ir.AttrFloat32s(nm, [float(x) for x in a["v"]], doc_string=doc)
+        if k == "strs":
+            return ir.AttrStrings(nm, a["v"], doc_string=doc)
+        if k == "tensor":
+            return ir.AttrTensor(nm, env.T(a["t"]), doc_string=doc)
+        if k == "tensors":
+            return ir.AttrTensors(nm, [env.T(t) for t in a["ts"]], doc_string=doc)
+        if k == "graph":
+            return ir.AttrGraph(nm, env.G(a["g"]), doc_string=doc)
+        if k == "graphs":
+            return ir.AttrGraphs(nm, [env.G(g) for g in a["gs"] if g in env.g], doc_string=doc)
+        if k == "ref":
+            return ir.RefAttr(nm, a["ref"], ir.AttributeType(a["type"]), doc_string=doc)
+        if k == "type":
+            return ir.AttrTypeProto(nm, ir.TypeAndShape(mk_type(a["type"]), mk_shape(a.get("shape"))), doc_string=doc)
+        if k == "undef":       # function attribute without a default
+            return ir.Attr(nm, ir.AttributeType(a.get("type", 0)), None, doc_string=doc)
+    except _Missing:
+        return None
+    raise ValueError(f"unknown attribute spec {a}")
+
+
+def _present(d, hs):
+    return [d[h] for h in hs if h in d]
+
+
+def apply_op(env: Env, op: dict) -> str:
+    """Apply one recipe op through the public API.  'ok' | 'skip' (handle missing) | 'reject:<Exc>'."""
+    try:
+        _apply(env, op)
+        st = "ok"
+    except _Missing:
+        st = "skip"
+    except Exception as e:  # noqa: BLE001  (the API rejected the edit; nothing else to do)
+        st = "reject:" + type(e).__name__
+    env.log.append((op["op"], st))
+    return st
+
+
+def _apply(env: Env, op: dict) -> None:
+    import onnx_ir as ir
+    k = op["op"]
+    if k == "tensor":
+        env.t[op["id"]] = mk_tensor(op)
+    elif k == "value":
+        env.v[op["id"]] = ir.Value(name=op.get("name"), type=mk_type(op.get("type")), shape=mk_shape(op.get("shape")),
+                                   doc_string=op.get("doc"), const_value=env.T(op.get("const")),
+                                   metadata_props=dict(op["meta"]) if op.get("meta") else None)
+    elif k == "node":
+        ins = [env.v.get(h) if h is not None else None for h in op["ins"]]      # a missing input becomes None
+        attrs = [x for x in (mk_attr(env, a) for a in op.get("attrs", [])) if x is not None]
+        outs = op["outs"]
+        kw = dict(overload=op.get("overload", ""), version=op.get("version"), name=op.get("name"),
+                  doc_string=op.get("doc"), metadata_props=dict(op["meta"]) if op.get("meta") else None)
+        if op.get("graph") is not None:
+            kw["graph"] = env.G(op["graph"])
+        if outs and all(h in env.v for h in outs):
+            n = ir.Node(op.get("domain", ""), op["type"], ins, attrs, outputs=[env.v[h] for h in outs], **kw)
+        else:
+            n = ir.Node(op.get("domain", ""), op["type"], ins, attrs, num_outputs=len(outs), **kw)
+            for h, v in zip(outs, n.outputs):
+                env.v[h] = v
+        env.n[op["id"]] = n
+    elif k == "graph":
+        env.g[op["id"]] = ir.Graph(_present(env.v, op["ins"]), _present(env.v, op["outs"]),
+                                   nodes=_present(env.n, op["nodes"]), initializers=_present(env.v, op.get("inits", [])),
+                                   doc_string=op.get("doc"), opset_imports=dict(op["opsets"]) if op.get("opsets") else None,
+                                   name=op.get("name"), metadata_props=dict(op["meta"]) if op.get("meta") else None)
+    elif k == "function":
+        attrs = [x for x in (mk_attr(env, a) for a in op.get("attrs", [])) if x is not None]
+        env.f[op["id"]] = ir.Function(op["domain"], op["name"], op.get("overload", ""), graph=env.G(op["graph"]),
+                                      attributes=attrs)
+    elif k == "model":
+        env.model = ir.Model(env.G(op["graph"]), ir_version=op["ir_version"], producer_name=op.get("producer_name"),
+                             producer_version=op.get("producer_version"), domain=op.get("domain"),
+                             model_version=op.get("model_version"), doc_string=op.get("doc"),
+                             functions=_present(env.f, op.get("funcs", [])),
+                             metadata_props=dict(op["meta"]) if op.get("meta") else None)
+    # ---- edits: node lists
+    elif k == "append":
+        env.G(op["g"]).append(env.N(op["n"]))
+    elif k == "extend":
+        env.G(op["g"]).extend(_present(env.n, op["ns"]))
+    elif k == "insert_before":
+        env.G(op["g"]).insert_before(env.N(op["at"]), _present(env.n, op["ns"]))
+    elif k == "insert_after":
+        env.G(op["g"]).insert_after(env.N(op["at"]), _present(env.n, op["ns"]))
+    elif k == "remove":
+        ns = _present(env.n, op["ns"])
+        env.G(op["g"]).remove(ns[0] if len(ns) == 1 and op.get("single") else ns, safe=bool(op.get("safe")))
+    elif k == "move":                      # remove + insert elsewhere: the node order may become unsorted
+        g, n, at = env.G(op["g"]), env.N(op["n"]), env.N(op["at"])
+        if n is at:
+            return
+        g.remove(n)
+        (g.insert_before if op.get("before", True) else g.insert_after)(at, n)
+    elif k == "sort":
+        env.G(op["g"]).sort()
+    # ---- edits: nodes
+    elif k == "replace_input":
+        env.N(op["n"]).replace_input_with(op["i"], env.V(op.get("v")))
+    elif k == "resize_inputs":
+        env.N(op["n"]).resize_inputs(op["size"])
+    elif k == "resize_outputs":
+        n = env.N(op["n"])
+        old = len(n.outputs)
+        n.resize_outputs(op["size"])
+        for h, v in zip(op.get("new", []), n.outputs[old:]):
+            env.v[h] = v
+    elif k == "node_set":
+        setattr(env.N(op["n"]), op["field"], op["val"])        # name / domain / op_type / overload / doc_string / version
+    elif k == "node_meta":
+        env.N(op["n"]).metadata_props[op["key"]] = op["val"]
+    elif k == "attr_add":
+        a = mk_attr(env, op["attr"])
+        if a is None:
+            raise _Missing("attr")
+        env.N(op["n"]).attributes.add(a)
+    elif k == "attr_pop":
+        env.N(op["n"]).attributes.pop(op["name"])
+    # ---- edits: values
+    elif k == "rauw":
+        env.V(op["v"]).replace_all_uses_with(env.V(op["w"]), replace_graph_outputs=bool(op.get("go")))
+    elif k == "rename":
+        env.V(op["v"]).name = op["name"]
+    elif k == "set_type":
+        env.V(op["v"]).type = mk_type(op["type"])
+    elif k == "set_shape":
+        env.V(op["v"]).shape = mk_shape(op["shape"])
+    elif k == "set_dtype":
+        env.V(op["v"]).dtype = ir.DataType(op["dtype"])
+    elif k == "set_doc":
+        env.V(op["v"]).doc_string = op["doc"]
+    elif k == "set_meta":
+        env.V(op["v"]).metadata_props[op["key"]] = op["val"]
+    elif k == "set_const":
+        env.V(op["v"]).const_value = env.T(op.get("t"))
+    # ---- edits: graph inputs / outputs / initializers / header
+    elif k in ("gin_append", "gout_append"):
+        (env.G(op["g"]).inputs if k[:3] == "gin" else env.G(op["g"]).outputs).append(env.V(op["v"]))
+    elif k in ("gin_pop", "gout_pop"):
+        (env.G(op["g"]).inputs if k[:3] == "gin" else env.G(op["g"]).outputs).pop(op.get("i", -1))
+    elif k in ("gin_insert", "gout_insert"):
+        (env.G(op["g"]).inputs if k[:3] == "gin" else env.G(op["g"]).outputs).insert(op["i"], env.V(op["v"]))
+    elif k in ("gin_set", "gout_set"):
+        (env.G(op["g"]).inputs if k[:3] == "gin" else env.G(op["g"]).outputs)[op["i"]] = env.V(op["v"])
+    elif k == "init_set":
+        v = env.V(op["v"])
+        env.G(op["g"]).initializers[op["key"] if "key" in op else v.name] = v
+    elif k == "init_register":
+        env.G(op["g"]).register_initializer(env.V(op["v"]))
+    elif k == "init_pop":
+        env.G(op["g"]).initializers.pop(op["key"])
+    elif k == "graph_set":
+        setattr(env.G(op["g"]), op["field"], op["val"])         # name / doc_string
+    elif k == "graph_meta":
+        env.G(op["g"]).metadata_props[op["key"]] = op["val"]
+    elif k == "opset":
+        env.G(op["g"]).opset_imports[op["domain"]] = op["version"]
+    elif k == "model_set":
+        if env.model is None:
+            raise _Missing("model")
+        setattr(env.model, op["field"], op["val"])
+    elif k == "model_meta":
+        if env.model is None:
+            raise _Missing("model")
+        env.model.metadata_props[op["key"]] = op["val"]
+    elif k == "func_set":
+        if op["f"] not in env.f:
+            raise _Missing(op["f"])
+        setattr(env.f[op["f"]], op["field"], op["val"])         # name / domain / overload / doc_string
+    else:
+        raise ValueError(f"unknown op {k}")
+
+
+EDIT_OPS = {"append", "extend", "insert_before", "insert_after", "remove", "move", "sort", "replace_input",
+            "resize_inputs", "resize_outputs", "node_set", "node_meta", "attr_add", "attr_pop", "rauw", "rename",
+            "set_type", "set_shape", "set_dtype", "set_doc", "set_meta", "set_const", "gin_append", "gout_append",
+            "gin_pop", "gout_pop", "gin_insert", "gout_insert", "gin_set", "gout_set", "init_set", "init_register",
+            "init_pop", "graph_set", "graph_meta", "opset", "model_set", "model_meta", "func_set"}
+
+
+def build(recipe: dict):
+    """Rebuild the model of a recipe.  Returns (model or None, env)."""
+    env = Env()
+    for op in recipe["ops"]:
+        apply_op(env, op)
+    return env.model, env
+
+# --------------------------------------------------------------------------- generator (model + edit history -> recipe)
+
+BREAKS = ["dup-name", "name-none", "free-value", "init-no-const", "shadow", "input-twice", "empty-name-used",
+          "shared-subgraph", "const-on-non-init", "output-foreign", "remove-unsafe", "node-name-none",
+          "init-no-info", "dup-function", "output-name-none"]
+
+
+class Gen:
+    """Generates a recipe while applying it (so that later choices see the real objects)."""
+
+    def __init__(self, rng, profile: str = "mixed"):
+        self.rng = rng
+        self.env = Env()
+        self.ops: list = []
+        self.cnt = {"v": 0, "n": 0, "g": 0, "t": 0, "f": 0, "m": 0}
+        self.used: list = []
+        self.ginfo: dict = {}         # gid -> {"parent": gid | None, "fn": bool}
+        self.hv: dict = {}            # id(Value) -> handle
+        self.hn: dict = {}            # id(Node) -> handle
+        self.shape_no_type = rng.random() < 0.10
+        self.profile = profile
+        self.breaks: list = []
+        self.funcs: list = []         # (fid, domain, name, overload)
+        self.ir_version = rng.choice([10, 10, 10, 10, 11, 11, 11, 9, 8])
+
+    # ---- plumbing
+    def h(self, kind: str) -> str:
+        self.cnt[kind] += 1
+        return f"{kind}{self.cnt[kind]}"
+
+    def emit(self, op: dict) -> str:
+        st = apply_op(self.env, op)
+        self.ops.append(op)
+        for hh, v in self.env.v.items():
+            self.hv.setdefault(id(v), hh)
+        for hh, n in self.env.n.items():
+            self.hn.setdefault(id(n), hh)
+        return st
+
+    def fresh_name(self) -> str:
+        for s in NAME_POOL:
+            if s not in self.used:
+                self.used.append(s)
+                return s
+        k = len(self.used)
+        s = f"{NAME_POOL[k % len(NAME_POOL)]}{k // len(NAME_POOL)}"
+        self.used.append(s)
+        return s
+
+    # ---- leaves
+    def vfields(self) -> dict:
+        r, f = self.rng, {}
+        if r.random() < 0.72:
+            dt = r.choice(DTYPES)
+            q = r.random()
+            den = r.choice(["IMAGE", "TENSOR"]) if r.random() < 0.06 else None
+            if q < 0.82:
+                f["type"] = ["T", dt, den]
+            elif q < 0.88:
+                f["type"] = ["S", dt, den]
+            elif q < 0.96:
+                f["type"] = ["Seq", ["T", dt, None], den]
+            else:
+                f["type"] = ["Opt", ["Seq", ["T", dt, None], None], den]
+        if ("type" in f or self.shape_no_type) and r.random() < 0.65:
+            dims = [r.choice([1, 2, 3, 0, "N", "M", None]) for _ in range(r.randrange(0, 4))]
+            f["shape"] = {"dims": dims}
+            if dims and r.random() < 0.08:
+                f["shape"]["den"] = [r.choice([None, "DATA_BATCH"]) for _ in dims]
+            if r.random() < 0.2:
+                f["shape"]["frozen"] = True
+        if r.random() < 0.1:
+            f["doc"] = r.choice(["vdoc", "vdoc", ""])
+        if r.random() < 0.1:
+            f["meta"] = {"mk": r.choice(["mv", ""])}
+        return f
+
+    def new_tensor(self, name="?") -> str:
+        r = self.rng
+        kind = r.choice(["np", "np", "np", "np", "str", "ext", "lazy", "packed", "tpt", "tpt"])
+        tid = self.h("t")
+        n = r.choice([0, 1, 2, 3])
+        op = {"op": "tensor", "id": tid, "kind": kind,
+              "name": (r.choice([None, "t", "w", f"tn{self.cnt['t']}"]) if name == "?" else name)}
+        if kind == "str":
+            op.update(dtype=8, dims=[n], data=[[97 + r.randrange(4)] * r.randrange(0, 3) for _ in range(n)])
+        elif kind == "ext":
+            op.update(dtype=1, dims=[n], data=[], loc=r.choice(["nonexistent_c03/w.bin", "no_such_file.bin"]),
+                      offset=r.choice([None, 0, 16]), length=r.choice([None, 4 * n]))
+            if op["name"] is None:
+                op["name"] = "ext"          # ExternalTensor requires a name
+        elif kind == "packed":
+            n = r.choice([1, 2, 4])
+            op.update(dtype=22, dims=[n], data=[r.randrange(256) for _ in range((n + 1) // 2)])
+        else:
+            dims = r.choice([[], [n], [2, n]])
+            cnt = 1
+            for d in dims:
+                cnt *= d
+            op.update(dtype=r.choice(DTYPES), dims=dims, data=[r.randrange(6) for _ in range(cnt)])
+            if kind == "lazy":
+                op["cache"] = r.random() < 0.5
+            if kind == "tpt":
+                op["raw"] = r.random() < 0.6
+        if r.random() < 0.1:
+            op["doc"] = "tdoc"
+        if r.random() < 0.1:
+            op["meta"] = {"tk": "tv"}
+        self.emit(op)
+        return tid
+
+    def new_value(self, name="?", const=None, like_tensor=False, fields=None) -> str:
+        vid = self.h("v")
+        op = {"op": "value", "id": vid, "name": self.fresh_name() if name == "?" else name}
+        if fields is not None:
+            op.update(fields)
+        elif like_tensor and const is not None:
+            t = self.env.t[const]
+            op["type"] = ["T", int(t.dtype), None]
+            op["shape"] = {"dims": [int(d) for d in t.shape.dims]}
+        else:
+            op.update(self.vfields())
+        if const is not None:
+            op["const"] = const
+        self.emit(op)
+        return vid
+
+    def plain_attr(self, name=None) -> dict:
+        r = self.rng
+        nm = name or r.choice(["alpha", "axis", "mode", "vals", "k", "value"])
+        q = r.random()
+        if q < 0.2:
+            a = {"k": "int", "name": nm, "v": r.randrange(-3, 10)}
+        elif q < 0.35:
+            a = {"k": "float", "name": nm, "v": r.choice([0.0, 0.5, -1.25, 3.0, 1e30, float("inf")])}
+        elif q < 0.5:
+            a = {"k": "str", "name": nm, "v": r.choice(["s", "", "héllo"])}
+        elif q < 0.6:
+            a = {"k": "ints", "name": nm, "v": [r.randrange(5) for _ in range(r.randrange(0, 4))]}
+        elif q < 0.68:
+            a = {"k": "floats", "name": nm, "v": [r.choice([0.25, 2.0]) for _ in range(r.randrange(0, 3))]}
+        elif q < 0.74:
+            a = {"k": "strs", "name": nm, "v": [r.choice(["x", "yy"]) for _ in range(r.randrange(0, 3))]}
+        elif q < 0.9:
+            a = {"k": "tensor", "name": nm, "t": self.new_tensor()}
+        elif q < 0.94:
+            a = {"k": "tensors", "name": nm, "ts": [self.new_tensor(), self.new_tensor()]}
+        else:
+            a = {"k": "type", "name": nm, "type": ["T", r.choice(DTYPES), None], "shape": {"dims": [1, "N"]}}
+        if r.random() < 0.08:
+            a["doc"] = "adoc"
+        return a
+
+    # ---- scopes
+    def own_values(self, gid) -> list:
+        """Handles of the values a graph defines now (inputs, initializers, outputs of its nodes)."""
+        g = self.env.g[gid]
+        out = []
+        for v in list(g.inputs) + list(g.initializers.values()) + [o for n in g for o in n.outputs]:
+            hh = self.hv.get(id(v))
+            if hh is not None and hh not in out:
+                out.append(hh)
+        return out
+
+    def scope_values(self, gid) -> list:
+        out = []
+        while gid is not None:
+            out += [x for x in self.own_values(gid) if x not in out]
+            gid = self.ginfo[gid]["parent"]
+        return out
+
+    def graph_nodes(self, gid) -> list:
+        return [self.hn[id(n)] for n in self.env.g[gid] if id(n) in self.hn]
+
+    def usable(self, hs) -> list:
+        """Values that can be referenced by name (non-empty name)."""
+        return [x for x in hs if self.env.v[x].name]
+
+    # ---- construction
+    def new_node(self, visible, outer, in_fn=False, op_type=None, domain=None, overload="", attrs=None,
+                 graph_attrs=()) -> tuple:
+        r = self.rng
+        ins = []
+        for _ in range(r.randrange(0, 4)):
+            q = r.random()
+            if q < 0.12:
+                ins.append(None)
+            elif outer and q < 0.4:
+                ins.append(r.choice(outer))
+            elif visible:
+                ins.append(r.choice(visible))
+        n_out = r.choice([1, 1, 1, 2, 2, 3])
+        nid = self.h("n")
+        outs = [self.h("v") for _ in range(n_out)]
+        prebuilt = r.random() < (0.65 if not outer else 0.85)
+        if prebuilt:
+            empties = set()
+            if n_out >= 2 and r.random() < 0.3:
+                empties.add(n_out - 1 if r.random() < 0.6 else r.randrange(n_out))     # trailing / middle optional output
+            for i, vh in enumerate(outs):
+                if i in empties:
+                    self.emit({"op": "value", "id": vh, "name": ""})
+                else:
+                    op = {"op": "value", "id": vh, "name": self.fresh_name()}
+                    op.update(self.vfields())
+                    self.emit(op)
+        al = list(attrs or [])
+        for _ in range(r.choice([0, 0, 1, 1, 2])):
+            a = self.plain_attr()
+            if not any(x["name"] == a["name"] for x in al):
+                al.append(a)
+        if in_fn and r.random() < 0.3:
+            al.append({"k": "ref", "name": "from_outer", "ref": r.choice(["alpha", "beta"]), "type": r.choice([1, 2, 3])})
+        al += list(graph_attrs)
+        op = {"op": "node", "id": nid, "domain": r.choice(["", "", "", "custom.domain", "ai.onnx"]) if domain is None else domain,
+              "type": op_type or r.choice(["Add", "Relu", "Identity", "Custom", "Split", "Constant"]),
+              "overload": overload, "ins": ins, "outs": outs, "attrs": al,
+              "name": f"n{self.cnt['n']}" if r.random() < 0.7 else None}
+        if r.random() < 0.1:
+            op["doc"] = "ndoc"
+        if r.random() < 0.1:
+            op["meta"] = {"nk": "nv"}
+        if r.random() < 0.08:
+            op["version"] = 18
+        self.emit(op)
+        return nid, outs
+
+    def gen_graph(self, depth: int, outer: list, fn: bool = False, parent=None) -> str:
+        r = self.rng
+        gid = self.h("g")
+        self.ginfo[gid] = {"parent": parent, "fn": fn}
+        ins = [self.new_value() for _ in range(r.randrange(1, 4) if depth == 0 or fn else r.randrange(0, 3))]
+        own = list(ins)
+        inits = []
+        if not fn:
+            for _ in range(r.choice([0, 1, 1, 2, 3]) if depth == 0 else r.choice([0, 0, 0, 1])):
+                t = self.new_tensor()
+                if ins and depth == 0 and r.random() < 0.2:
+                    v = r.choice(ins)
+                    if v in inits:
+                        continue
+                    self.emit({"op": "set_const", "v": v, "t": t})
+                    inits.append(v)
+                else:
+                    q = r.random()
+                    if q < 0.85:
+                        v = self.new_value(const=t, like_tensor=True)
+                    elif q < 0.93:
+                        v = self.new_value(const=t, fields={"doc": "only a doc"})
+                    else:
+                        v = self.new_value(const=t)
+                    inits.append(v)
+                    own.append(v)
+        n_plain = r.randrange(1, 6) if depth == 0 else r.randrange(0, 4)
+        n_ctrl = 0 if depth >= 2 else (r.choice([0, 0, 1, 1, 2]) if depth == 0 else r.choice([0, 0, 0, 1]))
+        plan = ["p"] * n_plain + ["c"] * n_ctrl
+        if depth == 0 and not fn:
+            plan += [("call", f) for f in self.funcs if r.random() < 0.8]
+        r.shuffle(plan)
+        slots = []                       # node handle per plan position (control nodes are filled in afterwards)
+        before = []                      # values visible before each plan position
+        for kind in plan:
+            before.append(list(own))
+            if kind == "p":
+                nid, outs = self.new_node(self.usable(own), self.usable(outer), in_fn=fn)
+                own += outs
+                slots.append(nid)
+            elif kind == "c":
+                slots.append(None)
+            else:
+                _, dom, name, ov = kind[1]
+                nid, outs = self.new_node(self.usable(own), [], op_type=name, domain=dom, overload=ov)
+                own += outs
+                slots.append(nid)
+        for i, kind in enumerate(plan):
+            if kind != "c":
+                continue
+            late = r.random() < 0.3          # the subgraph may capture values defined LATER in this graph
+            vis = self.usable((own if late else before[i]) + outer)
+            q = r.random()
+            if q < 0.55:
+                ga = [{"k": "graph", "name": "body", "g": self.gen_graph(depth + 1, vis, parent=gid)}]
+                ot = "Loop"
+            elif q < 0.85:
+                ga = [{"k": "graph", "name": "then_branch", "g": self.gen_graph(depth + 1, vis, parent=gid)},
+                      {"k": "graph", "name": "else_branch", "g": self.gen_graph(depth + 1, vis, parent=gid)}]
+                ot = "If"
+            else:
+                ga = [{"k": "graphs", "name": "branches",
+                       "gs": [self.gen_graph(depth + 1, vis, parent=gid) for _ in range(r.randrange(1, 3))]}]
+                ot = "Switch"
+            nid, outs = self.new_node(self.usable(before[i]), self.usable(outer), in_fn=fn, op_type=ot, domain="",
+                                      graph_attrs=ga)
+            own += outs
+            slots[i] = nid
+        order = list(slots)
+        if r.random() < 0.2:
+            r.shuffle(order)                 # unsorted node order
+        cands = self.usable([v for v in own if v not in ins and v not in inits]) or self.usable(own)
+        outs = []
+        for _ in range(r.randrange(1, 3) if depth == 0 or fn else r.randrange(0, 3)):
+            q = r.random()
+            if cands and q < 0.85:
+                outs.append(r.choice(cands))
+            elif self.usable(own):
+                outs.append(r.choice(self.usable(own)))
+        op = {"op": "graph", "id": gid, "ins": ins, "outs": outs, "nodes": order, "inits": inits,
+              "name": r.choice(["main", "g", "", None]) if depth == 0 else r.choice(["sub", "body", "", None])}
+        if r.random() < 0.12:
+            op["doc"] = "gdoc"
+        if r.random() < 0.1:
+            op["meta"] = {"gk": "gv"}
+        if depth == 0 and not fn:
+            op["opsets"] = {"": r.choice([17, 20])}
+            if r.random() < 0.4:
+                op["opsets"]["custom.domain"] = 1
+        elif fn:
+            op["opsets"] = {"": 18} if r.random() < 0.8 else {}
+        elif r.random() < 0.05:
+            op["opsets"] = {"": 13}          # opset imports of a subgraph (not part of the proto format)
+        self.emit(op)
+        return gid
+
+    def gen_function(self) -> None:
+        r = self.rng
+        save = self.used
+        self.used = []                       # function scopes reuse the small name pool (separate scope)
+        gid = self.gen_graph(1 if r.random() < 0.7 else 0, [], fn=True)
+        self.used = save + [x for x in self.used if x not in save]
+        fid = self.h("f")
+        dom, name = r.choice(["custom.domain", "fd"]), f"F{self.cnt['f']}"
+        ov = r.choice(["", "", "ov"]) if self.ir_version >= 10 else ""      # overloads exist from IR version 10
+        attrs = []
+        if r.random() < 0.6:
+            attrs.append({"k": "undef", "name": "alpha", "type": r.choice([0, 1, 2])})
+        if r.random() < 0.4:
+            attrs.append({"k": "int", "name": "beta", "v": 3})
+        self.emit({"op": "function", "id": fid, "domain": dom, "name": name, "overload": ov, "graph": gid, "attrs": attrs})
+        self.funcs.append((fid, dom, name, ov))
+
+    def gen_model(self) -> None:
+        r = self.rng
+        if r.random() < 0.3:
+            for _ in range(r.choice([1, 1, 2])):
+                self.gen_function()
+        gid = self.gen_graph(0, [])
+        self.root = gid
+        op = {"op": "model", "graph": gid, "funcs": [f[0] for f in self.funcs],
+              "ir_version": self.ir_version}
+        if r.random() < 0.3:
+            op["producer_name"] = "verif"
+        if r.random() < 0.15:
+            op["producer_version"] = "1.0"
+        if r.random() < 0.1:
+            op["domain"] = "dom"
+        if r.random() < 0.1:
+            op["model_version"] = 3
+        if r.random() < 0.15:
+            op["doc"] = "mdoc"
+        if r.random() < 0.15:
+            op["meta"] = {"mk": "mv", "b": "2"}
+        self.emit(op)
+
+    # ---- edit history
+    def pick_graph(self):
+        return self.rng.choice(sorted(self.env.g))
+
+    def unused_outputs(self, gid) -> list:
+        g = self.env.g[gid]
+        return [self.hv[id(o)] for n in g for o in n.outputs
+                if id(o) in self.hv and not o.uses() and not o.is_graph_output()]
+
+    def gen_edit(self, wild: bool = False) -> None:
+        r = self.rng
+        kinds = [("rename", 8), ("rename_empty", 4), ("set_type", 4), ("set_shape", 4), ("set_dtype", 3), ("set_doc", 2),
+                 ("set_meta", 2), ("append", 6), ("insert", 5), ("extend", 2), ("remove", 5), ("move", 6), ("sort", 3),
+                 ("replace_input", 6), ("resize_inputs", 3), ("resize_outputs", 4), ("rauw", 4), ("gin_append", 2),
+                 ("gin_pop", 1), ("gin_insert", 1), ("gin_set", 1), ("gout_append", 3), ("gout_pop", 2), ("gout_set", 2),
+                 ("gout_insert", 1), ("init_set", 3), ("init_register", 2), ("init_pop", 2), ("set_const", 2),
+                 ("node_set", 4), ("node_meta", 1), ("attr_add", 3), ("attr_pop", 1), ("graph_set", 2),
+                 ("graph_meta", 1), ("opset", 1), ("model_set", 1), ("model_meta", 1), ("func_set", 1)]
+        k = r.choices([x for x, _ in kinds], [w for _, w in kinds])[0]
+        gid = self.pick_graph()
+        g = self.env.g[gid]
+        fn = self.ginfo[gid]["fn"]
+        nodes = self.graph_nodes(gid)
+        own = self.own_values(gid)
+        scope = self.usable(self.scope_values(gid))
+        allv = sorted(self.env.v)
+        if k == "rename" and own:
+            v = r.choice(own)
+            self.emit({"op": "rename", "v": v, "name": r.choice(self.used) if wild and self.used else self.fresh_name()})
+        elif k == "rename_empty":
+            c = self.unused_outputs(gid) if not wild else own
+            if not wild and r.random() < 0.85:          # an empty name cannot carry type/shape/doc/metadata
+                c = [x for x in c if value_payload_key(self.env.v[x]) is None]
+            if c:
+                self.emit({"op": "rename", "v": r.choice(c), "name": ""})
+        elif k in ("set_type", "set_shape", "set_dtype", "set_doc", "set_meta") and own:
+            v = r.choice(own)
+            f = self.vfields()
+            if k == "set_type":
+                if self.env.v[v].shape is not None and "type" not in f and not self.shape_no_type:
+                    self.emit({"op": "set_shape", "v": v, "shape": None})
+                self.emit({"op": "set_type", "v": v, "type": f.get("type")})
+            elif k == "set_shape":
+                sh = f.get("shape", {"dims": [2, "K"]}) if (self.env.v[v].type is not None or self.shape_no_type) else None
+                self.emit({"op": "set_shape", "v": v, "shape": sh if r.random() < 0.8 else None})
+            elif k == "set_dtype":
+                self.emit({"op": "set_dtype", "v": v, "dtype": r.choice(DTYPES)})
+            elif k == "set_doc":
+                self.emit({"op": "set_doc", "v": v, "doc": r.choice(["edited doc", "", None])})
+            else:
+                self.emit({"op": "set_meta", "v": v, "key": r.choice(["mk", "k2"]), "val": r.choice(["x", ""])})
+        elif k in ("append", "insert", "extend"):
+            outer = [] if self.ginfo[gid]["parent"] is None else self.usable(self.scope_values(self.ginfo[gid]["parent"]))
+            new = [self.new_node(self.usable(own), outer, in_fn=fn)[0] for _ in range(2 if k == "extend" else 1)]
+            if k == "append":
+                self.emit({"op": "append", "g": gid, "n": new[0]})
+            elif k == "extend" or not nodes:
+                self.emit({"op": "extend", "g": gid, "ns": new})
+            else:
+                self.emit({"op": r.choice(["insert_before", "insert_after"]), "g": gid, "at": r.choice(nodes), "ns": new})
+        elif k == "remove" and nodes:
+            ns = r.sample(nodes, 1 if r.random() < 0.8 else min(2, len(nodes)))
+            self.emit({"op": "remove", "g": gid, "ns": ns, "safe": not wild, "single": r.random() < 0.5})
+        elif k == "move" and len(nodes) >= 2:
+            n, at = r.sample(nodes, 2)
+            self.emit({"op": "move", "g": gid, "n": n, "at": at, "before": r.random() < 0.5})
+        elif k == "sort":
+            self.emit({"op": "sort", "g": gid})
+        elif k == "replace_input" and nodes:
+            n = r.choice(nodes)
+            k_in = len(self.env.n[n].inputs)
+            if k_in:
+                pool = allv if wild else scope
+                v = r.choice(pool) if pool and r.random() < 0.85 else None
+                self.emit({"op": "replace_input", "n": n, "i": r.randrange(k_in), "v": v})
+        elif k == "resize_inputs" and nodes:
+            n = r.choice(nodes)
+            k_in = len(self.env.n[n].inputs)
+            size = max(0, k_in + r.choice([-1, 1, 1, 2]))
+            self.emit({"op": "resize_inputs", "n": n, "size": size})
+            for i in range(k_in, size):
+                if scope and r.random() < 0.6:
+                    self.emit({"op": "replace_input", "n": n, "i": i, "v": r.choice(scope)})
+        elif k == "resize_outputs" and nodes:
+            n = r.choice(nodes)
+            cur = list(self.env.n[n].outputs)
+            size = max(0, len(cur) + r.choice([-1, -1, 1, 1, 2]))
+            if size < len(cur) and not wild and any(o.is_graph_output() for o in cur[size:]):
+                return
+            new = [self.h("v") for _ in range(max(0, size - len(cur)))]
+            st = self.emit({"op": "resize_outputs", "n": n, "size": size, "new": new})
+            if st == "ok":
+                for j, vh in enumerate(new):           # the new outputs are unnamed: the user names them
+                    q = r.random()
+                    if q < 0.6:
+                        self.emit({"op": "rename", "v": vh, "name": self.fresh_name()})
+                    elif q < 0.9:
+                        self.emit({"op": "rename", "v": vh, "name": ""})
+        elif k == "rauw" and len(own) >= 2:
+            v, w = r.sample(own, 2)
+            if not self.env.v[w].name and not wild:
+                return
+            self.emit({"op": "rauw", "v": v, "w": w, "go": r.random() < 0.6})
+        elif k in ("gin_append", "gin_insert"):
+            v = self.new_value()
+            if k == "gin_append":
+                self.emit({"op": "gin_append", "g": gid, "v": v})
+            else:
+                self.emit({"op": "gin_insert", "g": gid, "i": r.randrange(len(g.inputs) + 1), "v": v})
+        elif k in ("gin_pop", "gin_set") and len(g.inputs):
+            i = r.randrange(len(g.inputs))
+            if g.inputs[i].uses() and not wild:
+                return
+            if k == "gin_pop":
+                self.emit({"op": "gin_pop", "g": gid, "i": i})
+            else:
+                self.emit({"op": "gin_set", "g": gid, "i": i, "v": self.new_value()})
+        elif k in ("gout_append", "gout_insert", "gout_set") and own:
+            pool = allv if wild else self.usable(own)
+            if not pool:
+                return
+            v = r.choice(pool)
+            if k == "gout_append":
+                self.emit({"op": "gout_append", "g": gid, "v": v})
+            elif k == "gout_insert":
+                self.emit({"op": "gout_insert", "g": gid, "i": r.randrange(len(g.outputs) + 1), "v": v})
+            elif len(g.outputs):
+                self.emit({"op": "gout_set", "g": gid, "i": r.randrange(len(g.outputs)), "v": v})
+        elif k == "gout_pop" and len(g.outputs):
+            self.emit({"op": "gout_pop", "g": gid, "i": r.randrange(len(g.outputs))})
+        elif k in ("init_set", "init_register") and not fn:
+            t = self.new_tensor()
+            v = self.new_value(const=t, like_tensor=r.random() < 0.9)
+            self.emit({"op": k, "g": gid, "v": v})
+        elif k == "init_pop" and len(g.initializers):
+            key = r.choice(list(g.initializers))
+            v = g.initializers[key]
+            if v.uses() and not v.is_graph_input() and not wild:
+                return
+            self.emit({"op": "init_pop", "g": gid, "key": key})
+        elif k == "set_const" and len(g.initializers):
+            v = self.hv.get(id(g.initializers[r.choice(list(g.initializers))]))
+            if v:
+                self.emit({"op": "set_const", "v": v, "t": self.new_tensor()})
+        elif k == "node_set" and nodes:
+            n = r.choice(nodes)
+            field = r.choice(["name", "domain", "op_type", "overload", "doc_string", "version"])
+            self.cnt["m"] += 1
+            val = {"name": f"m{self.cnt['m']}", "domain": r.choice(["", "ai.onnx", "other.domain"]),
+                   "op_type": r.choice(["Mul", "Edited"]), "overload": r.choice(["", "o2"]),
+                   "doc_string": r.choice(["edited", "", None]), "version": r.choice([None, 19])}[field]
+            self.emit({"op": "node_set", "n": n, "field": field, "val": val})
+        elif k == "node_meta" and nodes:
+            self.emit({"op": "node_meta", "n": r.choice(nodes), "key": "nk2", "val": "v"})
+        elif k == "attr_add" and nodes:
+            self.emit({"op": "attr_add", "n": r.choice(nodes), "attr": self.plain_attr()})
+        elif k == "attr_pop" and nodes:
+            n = r.choice(nodes)
+            names = [a for a, x in self.env.n[n].attributes.items() if x.is_ref() or int(x.type) not in (5, 10)]
+            if names:
+                self.emit({"op": "attr_pop", "n": n, "name": r.choice(names)})
+        elif k == "graph_set":
+            field = r.choice(["name", "doc_string"])
+            self.emit({"op": "graph_set", "g": gid, "field": field, "val": r.choice(["renamed", "", None])})
+        elif k == "graph_meta":
+            self.emit({"op": "graph_meta", "g": gid, "key": "gk2", "val": "gv2"})
+        elif k == "opset":
+            self.emit({"op": "opset", "g": gid, "domain": r.choice(["", "other.domain"]), "version": r.choice([1, 21])})
+        elif k == "model_set":
+            field = r.choice(["producer_name", "doc_string", "model_version", "ir_version", "domain"])
+            val = {"producer_name": "edited", "doc_string": r.choice(["", "md2"]), "model_version": r.choice([None, 0, 7]),
+                   "ir_version": r.choice([10, 11]), "domain": "d2"}[field]
+            self.emit({"op": "model_set", "field": field, "val": val})
+        elif k == "model_meta":
+            self.emit({"op": "model_meta", "key": "mk2", "val": "mv2"})
+        elif k == "func_set" and self.funcs:
+            f = r.choice(self.funcs)[0]
+            field = r.choice(["name", "doc_string", "overload"])
+            self.emit({"op": "func_set", "f": f, "field": field,
+                       "val": {"name": "Frenamed", "doc_string": "fdoc", "overload": "ov2"}[field]})
+
+    # ---- deliberate breakage of one hypothesis of `serializable`
+    def gen_break(self) -> None:
+        r = self.rng
+        b = r.choice(BREAKS)
+        gids = sorted(self.env.g)
+        gid = r.choice(gids)
+        g = self.env.g[gid]
+        own = self.own_values(gid)
+        nodes = self.graph_nodes(gid)
+        done = False
+        if b == "dup-name" and len(self.usable(own)) >= 2:
+            v, w = r.sample(self.usable(own), 2)
+            done = self.emit({"op": "rename", "v": v, "name": self.env.v[w].name}) == "ok"
+        elif b == "name-none" and own:
+            c = self.unused_outputs(gid) or own
+            done = self.emit({"op": "rename", "v": r.choice(c), "name": None}) == "ok"
+        elif b == "output-name-none" and self.unused_outputs(gid):
+            done = self.emit({"op": "rename", "v": r.choice(self.unused_outputs(gid)), "name": None}) == "ok"
+        elif b == "free-value" and nodes:
+            v = self.new_value()
+            n = r.choice(nodes)
+            k_in = len(self.env.n[n].inputs)
+            self.emit({"op": "resize_inputs", "n": n, "size": k_in + 1})
+            done = self.emit({"op": "replace_input", "n": n, "i": k_in, "v": v}) == "ok"
+        elif b == "init-no-const" and len(g.initializers):
+            v = self.hv.get(id(g.initializers[r.choice(list(g.initializers))]))
+            done = v is not None and self.emit({"op": "set_const", "v": v, "t": None}) == "ok"
+        elif b == "init-no-info" and not self.ginfo[gid]["fn"]:
+            v = self.new_value(const=self.new_tensor(), fields={})
+            done = self.emit({"op": "init_set", "g": gid, "v": v}) == "ok"
+        elif b == "shadow" and self.ginfo[gid]["parent"] is not None and own:
+            outer = self.usable(self.scope_values(self.ginfo[gid]["parent"]))
+            if outer:
+                done = self.emit({"op": "rename", "v": r.choice(own), "name": self.env.v[r.choice(outer)].name}) == "ok"
+        elif b == "input-twice" and len(g.inputs):
+            v = self.hv.get(id(r.choice(list(g.inputs))))
+            done = v is not None and self.emit({"op": "gin_append", "g": gid, "v": v}) == "ok"
+        elif b == "empty-name-used":
+            c = [x for x in own if self.env.v[x].uses() or self.env.v[x].is_graph_output()]
+            if c:
+                done = self.emit({"op": "rename", "v": r.choice(c), "name": ""}) == "ok"
+        elif b == "shared-subgraph" and nodes and len(gids) >= 2:
+            sub = [x for x in gids if self.ginfo[x]["parent"] is not None]
+            if sub:
+                done = self.emit({"op": "attr_add", "n": r.choice(nodes),
+                                  "attr": {"k": "graph", "name": "shared", "g": r.choice(sub)}}) == "ok"
+        elif b == "const-on-non-init":
+            c = [x for x in own if not self.env.v[x].is_initializer()]
+            if c:
+                done = self.emit({"op": "set_const", "v": r.choice(c), "t": self.new_tensor()}) == "ok"
+        elif b == "output-foreign":
+            others = [x for x in sorted(self.env.v) if x not in own and self.env.v[x].name]
+            if others:
+                done = self.emit({"op": "gout_append", "g": gid, "v": r.choice(others)}) == "ok"
+        elif b == "remove-unsafe" and nodes:
+            c = [n for n in nodes if any(o.uses() for o in self.env.n[n].outputs)] or nodes
+            done = self.emit({"op": "remove", "g": gid, "ns": [r.choice(c)], "safe": False}) == "ok"
+        elif b == "node-name-none" and nodes:
+            done = self.emit({"op": "node_set", "n": r.choice(nodes), "field": "name", "val": None}) == "ok"
+        elif b == "dup-function" and len(self.funcs) >= 2:
+            done = self.emit({"op": "func_set", "f": self.funcs[0][0], "field": "name", "val": self.funcs[1][2]}) == "ok"
+            self.emit({"op": "func_set", "f": self.funcs[0][0], "field": "domain", "val": self.funcs[1][1]})
+            self.emit({"op": "func_set", "f": self.funcs[0][0], "field": "overload", "val": self.funcs[1][3]})
+        if done:
+            self.breaks.append(b)
+
+    def recipe(self) -> dict:
+        return {"ops": self.ops, "breaks": self.breaks}
+
+
+def gen_recipe(rng) -> dict:
+    """One generated case: construction, an edit history, and (for a minority) one deliberate breakage."""
+    g = Gen(rng)
+    g.gen_model()
+    q = rng.random()
+    n_edits = 0 if q < 0.25 else rng.randrange(1, 4) if q < 0.6 else rng.randrange(3, 10)
+    for _ in range(n_edits):
+        g.gen_edit(wild=rng.random() < 0.04)
+    if rng.random() < 0.2:
+        for _ in range(3):
+            g.gen_break()
+            if g.breaks:
+                break
+    return g.recipe()
+
+# --------------------------------------------------------------------------- oracle, part (a): snapshots of every public accessor
+
+
+def _shape_facts(s):
+    if s is None:
+        return None
+    return (id(s), tuple(repr(d) for d in s.dims), tuple(s.get_denotation(i) for i in range(len(s.dims))), s.frozen)
+
+
+def _type_facts(t):
+    if t is None:
+        return None
+    return (id(t), repr(t), getattr(t, "denotation", None))
+
+
+def _tensor_facts(t) -> dict:
+    import onnx
+    import onnx_ir as ir
+    from onnx_ir import serde
+    f = {"class": type(t).__name__, "name": t.name, "dtype": int(t.dtype), "shape": _shape_facts(t.shape)[1:],
+         "doc": t.doc_string, "meta": dict(t.metadata_props)}
+    if isinstance(t, ir.ExternalTensor):        # never read: the file does not exist
+        f["ext"] = (os.fspath(t.location), t.offset, t.length, os.fspath(t.base_dir))
+    elif isinstance(t, serde.TensorProtoTensor):
+        p = onnx.TensorProto()
+        p.CopyFrom(t.raw)
+        p.ClearField("name")
+        f["raw"] = p.SerializeToString(deterministic=True)
+    elif isinstance(t, ir.StringTensor):
+        f["data"] = tuple(bytes(x) for x in t.string_data())
+    else:
+        f["data"] = t.tobytes()
+    return f
+
+
+class Reach:
+    """Every object reachable from a model through public accessors (own traversal, independent of PART 1):
+    graphs (root, function bodies, graph attributes), nodes (members + producers + consumers found through
+    uses()), values, tensors, attributes, functions."""
+
+    def __init__(self, model):
+        import onnx_ir as ir
+        self.model = model
+        self.graphs, self.nodes, self.values, self.tensors, self.attrs = {}, {}, {}, {}, {}
+        self.member_nodes = set()
+        self.refs: dict = {}                       # id(graph) -> number of references (root/function/attribute)
+        self._T = ir.AttributeType
+        self._graph(model.graph)
+        for f in model.functions.values():
+            self._graph(f.graph)
+            for a in f.attributes.values():
+                self._attr(a)
+        work = list(self.values.values())
+        while work:                                # closure through producer() / uses()
+            v = work.pop()
+            for n in [v.producer()] + [u.node for u in v.uses()]:
+                if n is not None and id(n) not in self.nodes:
+                    before = set(self.values)
+                    self._node(n, member=False)
+                    work += [self.values[k] for k in set(self.values) - before]
+
+    def _value(self, v):
+        if v is None or id(v) in self.values:
+            return
+        self.values[id(v)] = v
+        if v.const_value is not None:
+            self.tensors[id(v.const_value)] = v.const_value
+
+    def _attr(self, a):
+        self.attrs[id(a)] = a
+        if a.is_ref() or a.value is None:
+            return
+        T = self._T
+        if a.type == T.GRAPH:
+            self._graph(a.value)
+        elif a.type == T.GRAPHS:
+            for g in a.value:
+                self._graph(g)
+        elif a.type == T.TENSOR:
+            self.tensors[id(a.value)] = a.value
+        elif a.type == T.TENSORS:
+            for t in a.value:
+                self.tensors[id(t)] = t
+
+    def _node(self, n, member=True):
+        if id(n) in self.nodes:
+            return
+        self.nodes[id(n)] = n
+        for v in n.inputs:
+            self._value(v)
+        for v in n.outputs:
+            self._value(v)
+        if member:                                 # graphs hanging off a node outside the model are not part of it
+            for a in n.attributes.values():
+                self._attr(a)
+
+    def _graph(self, g):
+        self.refs[id(g)] = self.refs.get(id(g), 0) + 1
+        if id(g) in self.graphs:
+            return
+        self.graphs[id(g)] = g
+        for v in g.inputs:
+            self._value(v)
+        for v in g.initializers.values():
+            self._value(v)
+        for n in g:
+            self.member_nodes.add(id(n))
+            self._node(n)
+        for v in g.outputs:
+            self._value(v)
+
+
+def _attr_facts(a):
+    import onnx_ir as ir
+    T = ir.AttributeType
+    if a.is_ref() or a.value is None:
+        val = None
+    elif a.type == T.GRAPH:
+        val = id(a.value)
+    elif a.type == T.GRAPHS:
+        val = tuple(id(g) for g in a.value)
+    elif a.type == T.TENSOR:
+        val = id(a.value)
+    elif a.type == T.TENSORS:
+        val = tuple(id(t) for t in a.value)
+    elif a.type in (T.TYPE_PROTO,):
+        val = (_type_facts(a.value.type), _shape_facts(a.value.shape))
+    else:
+        val = repr(a.value)
+    return (id(a), a.name, int(a.type), a.ref_attr_name, a.doc_string, val)
+
+
+def snapshot(model) -> dict:
+    """Deep structural snapshot: object id -> every public fact (references as object ids).  The objects stay
+    alive between two snapshots of the same model, so ids are stable handles."""
+    R = Reach(model)
+    s = {"_keep": R}
+    for i, v in R.values.items():
+        p = v.producer()
+        s[("v", i)] = {
+            "name": v.name, "type": _type_facts(v.type), "shape": _shape_facts(v.shape), "doc": v.doc_string,
+            "meta": dict(v.metadata_props), "store": {k: repr(x) for k, x in v.meta.items()},
+            "const": None if v.const_value is None else id(v.const_value), "producer": None if p is None else id(p),
+            "index": v.index(), "uses": tuple((id(u.node), u.idx) for u in v.uses()),
+            "consumers": tuple(id(n) for n in v.consumers()), "dtype": None if v.dtype is None else int(v.dtype),
+            "graph": None if v.graph is None else id(v.graph),
+            "flags": (v.is_graph_input(), v.is_graph_output(), v.is_initializer())}
+    for i, n in R.nodes.items():
+        s[("n", i)] = {
+            "name": n.name, "domain": n.domain, "op_type": n.op_type, "overload": n.overload, "version": n.version,
+            "inputs": tuple(None if v is None else id(v) for v in n.inputs), "outputs": tuple(id(v) for v in n.outputs),
+            "attrs": tuple((k, _attr_facts(a)) for k, a in n.attributes.items()), "doc": n.doc_string,
+            "meta": dict(n.metadata_props), "graph": None if n.graph is None else id(n.graph),
+            "devices": repr(n.device_configurations)}
+    for i, g in R.graphs.items():
+        s[("g", i)] = {
+            "name": g.name, "doc": g.doc_string, "opsets": tuple(g.opset_imports.items()), "meta": dict(g.metadata_props),
+            "inputs": tuple(id(v) for v in g.inputs), "outputs": tuple(id(v) for v in g.outputs),
+            "inits": tuple((k, id(v)) for k, v in g.initializers.items()), "nodes": tuple(id(n) for n in g)}
+    for i, t in R.tensors.items():
+        s[("t", i)] = _tensor_facts(t)
+    for k, f in model.functions.items():
+        s[("f", id(f))] = {"key": k, "domain": f.domain, "name": f.name, "overload": f.overload, "doc": f.doc_string,
+                           "opsets": tuple(f.opset_imports.items()), "meta": dict(f.metadata_props),
+                           "attrs": tuple((k2, _attr_facts(a)) for k2, a in f.attributes.items()), "graph": id(f.graph)}
+    m = model
+    s[("m", 0)] = {"ir_version": m.ir_version, "producer_name": m.producer_name, "producer_version": m.producer_version,
+                   "domain": m.domain, "model_version": m.model_version, "doc": m.doc_string, "meta": dict(m.metadata_props),
+                   "functions": tuple((k, id(f)) for k, f in m.functions.items()), "graph": id(m.graph),
+                   "opsets": tuple(m.opset_imports.items()), "devices": repr(m.device_configurations)}
+    return s
+
+
+def snapshot_diff(s0: dict, s1: dict) -> list:
+    """Facts that differ between two snapshots, except the documented effect: the name of a tensor that is the
+    const_value of an initializer may become the name of (one of) the initializer value(s) holding it."""
+    bad = []
+    holders: dict = {}                    # tensor id -> names of the initializer values holding it
+    for key, f in s0.items():
+        if key[0] == "g":
+            for _, vid in f["inits"]:
+                vf = s0[("v", vid)]
+                if vf["const"] is not None:
+                    holders.setdefault(vf["const"], set()).add(vf["name"])
+    for key in s0:
+        if key == "_keep":
+            continue
+        if key not in s1:
+            bad.append(f"side-effect: object {key[0]} no longer reachable after to_proto")
+            continue
+        a, b = s0[key], s1[key]
+        if a == b:
+            continue
+        for fld in a:
+            if a[fld] != b.get(fld):
+                if key[0] == "t" and fld == "name" and b["name"] in holders.get(key[1], ()):
+                    continue
+                bad.append(f"side-effect: {key[0]} {a.get('name')!r}: {fld} changed {a[fld]!r} -> {b.get(fld)!r}"[:300])
+    for key in s1:
+        if key not in s0:
+            bad.append(f"side-effect: new object {key[0]} reachable after to_proto")
+    return bad
+
+
+def tensor_names_aligned(model) -> list:
+    """After a successful to_proto every initializer tensor carries the name of a value that holds it."""
+    bad = []
+    R = Reach(model)
+    holders: dict = {}
+    for g in R.graphs.values():
+        for v in g.initializers.values():
+            if v.const_value is not None:
+                holders.setdefault(id(v.const_value), set()).add(v.name)
+    for tid, names in holders.items():
+        t = R.tensors[tid]
+        if t.name not in names:
+            bad.append(f"side-effect: initializer tensor name {t.name!r} is not the name of its value {sorted(map(repr, names))}")
+    return bad
+
+
+# --------------------------------------------------------------------------- oracle, part (c): independent isomorphism check
+
+
+def _falsy_eq(a, b) -> bool:
+    return (a or None) == (b or None)
+
+
+def _same_type(a, b) -> bool:
+    if a is None or b is None:
+        return a is None and b is None
+    if type(a).__name__ != type(b).__name__ or not _falsy_eq(getattr(a, "denotation", None), getattr(b, "denotation", None)):
+        return False
+    if type(a).__name__ in ("TensorType", "SparseTensorType"):
+        return int(a.dtype) == int(b.dtype)
+    return _same_type(a.elem_type, b.elem_type)
+
+
+def _dims(s):
+    return tuple((d if isinstance(d, int) else ("sym", d.value), s.get_denotation(i) or None) for i, d in enumerate(s.dims))
+
+
+def _same_shape(a, b) -> bool:
+    if a is None or b is None:
+        return a is None and b is None
+    return _dims(a) == _dims(b)
+
+
+def _tensor_content(t):
+    import onnx_ir as ir
+    if isinstance(t, ir.ExternalTensor):
+        return ("ext", os.fspath(t.location), t.offset, t.length)
+    if int(t.dtype) == 8:
+        return ("str", tuple(bytes(x) for x in t.string_data()))
+    return ("bytes", t.tobytes())
+
+
+def _same_tensor(a, b, name_b=None) -> list:
+    """Differences between two tensors (dtype, shape, bytes, doc, metadata, name)."""
+    d = []
+    if int(a.dtype) != int(b.dtype):
+        d.append(f"dtype {a.dtype} vs {b.dtype}")
+    if _dims(a.shape) != _dims(b.shape):
+        d.append(f"shape {a.shape} vs {b.shape}")
+    try:
+        if _tensor_content(a) != _tensor_content(b):
+            d.append("bytes differ")
+    except Exception as e:  # noqa: BLE001
+        d.append(f"content unreadable: {type(e).__name__}")
+    if not _falsy_eq(a.doc_string, b.doc_string):
+        d.append(f"doc {a.doc_string!r} vs {b.doc_string!r}")
+    if dict(a.metadata_props) != dict(b.metadata_props):
+        d.append("metadata differ")
+    want = a.name if name_b is None else name_b
+    if not _falsy_eq(want, b.name):
+        d.append(f"name {want!r} vs {b.name!r}")
+    return d
+
+
+def _f32(x):
+    import struct
+    return "nan" if x != x else struct.pack("<f", x)
+
+
+def _trim(outs):
+    outs = list(outs)
+    while outs and not outs[-1].name:
+        outs.pop()
+    return outs
+
+
+class IsoCheck:
+    """Simultaneous traversal of two models building a bijection on graphs / nodes / values."""
+
+    def __init__(self, m1, m2):
+        import onnx_ir as ir
+        self.T = ir.AttributeType
+        self.bad: list = []
+        self.vm, self.nm, self.gm = {}, {}, {}          # id(obj1) -> obj2
+        self.rv, self.rn, self.rg = {}, {}, {}          # id(obj2) -> obj1
+        self.vpairs, self.fn_graphs = [], set()
+        self.model(m1, m2)
+        self.links()
+
+    def err(self, aspect, msg):
+        self.bad.append(f"iso:{aspect}: {msg}"[:300])
+
+    def bind(self, fwd, rev, a, b, what) -> bool:
+        """True when the pair is new (and must be compared)."""
+        if id(a) in fwd:
+            if fwd[id(a)] is not b:
+                self.err("sharing", f"{what} {getattr(a, 'name', None)!r} corresponds to two different objects after the round trip")
+            return False
+        if id(b) in rev:
+            self.err("sharing", f"two different {what}s correspond to the same object {getattr(b, 'name', None)!r} after the round trip")
+            return False
+        fwd[id(a)], rev[id(b)] = b, a
+        return True
+
+    # ---- leaves
+    def value(self, a, b, where):
+        if a is None or b is None:
+            if not (a is None and b is None):
+                self.err("connectivity", f"{where}: optional (None) input not preserved: {a!r} vs {b!r}")
+            return
+        if not self.bind(self.vm, self.rv, a, b, "value"):
+            return
+        self.vpairs.append((a, b, where))
+        if a.name != b.name:
+            self.err("name", f"{where}: value name {a.name!r} vs {b.name!r}")
+        init_no_info = a.is_initializer() and a.type is None and a.shape is None
+        if not _same_type(a.type, b.type):
+            # documented: "Users expect initialized values to have shape and type information"
+            if not (init_no_info and b.const_value is not None and _same_type(b.type, _tensor_type(b.const_value))):
+                self.err("type", f"{where}: value {a.name!r} type {a.type!r} vs {b.type!r}")
+        if not _same_shape(a.shape, b.shape):
+            if not (init_no_info and b.const_value is not None and _same_shape(b.shape, b.const_value.shape)):
+                self.err("shape", f"{where}: value {a.name!r} shape {a.shape!r} (type {a.type!r}) vs {b.shape!r}")
+        if not _falsy_eq(a.doc_string, b.doc_string):
+            self.err("doc", f"{where}: value {a.name!r} doc {a.doc_string!r} vs {b.doc_string!r}")
+        if dict(a.metadata_props) != dict(b.metadata_props):
+            self.err("metadata", f"{where}: value {a.name!r} metadata {dict(a.metadata_props)} vs {dict(b.metadata_props)}")
+        if (a.const_value is None) != (b.const_value is None):
+            self.err("const", f"{where}: value {a.name!r} const_value present {a.const_value is not None} vs {b.const_value is not None}")
+        elif a.const_value is not None:
+            d = _same_tensor(a.const_value, b.const_value, name_b=b.name if a.is_initializer() else None)
+            if d:
+                self.err("const", f"{where}: tensor of {a.name!r}: {d}")
+        fa = (a.is_graph_input(), a.is_graph_output(), a.is_initializer())
+        fb = (b.is_graph_input(), b.is_graph_output(), b.is_initializer())
+        if fa != fb:
+            self.err("flags", f"{where}: value {a.name!r} (input,output,initializer) flags {fa} vs {fb}")
+
+    def attr(self, a, b, where):
+        T = self.T
+        if a.name != b.name or a.is_ref() != b.is_ref() or (a.type != b.type and not (a.value is None and b.value is None and not a.is_ref())):
+            self.err("attr", f"{where}: attribute {a.name!r}/{a.type!r}/ref={a.is_ref()} vs {b.name!r}/{b.type!r}/ref={b.is_ref()}")
+            return
+        if not _falsy_eq(a.doc_string, b.doc_string):
+            self.err("doc", f"{where}: attribute {a.name!r} doc {a.doc_string!r} vs {b.doc_string!r}")
+        if a.is_ref():
+            if a.ref_attr_name != b.ref_attr_name:
+                self.err("attr", f"{where}: attribute {a.name!r} refers to {a.ref_attr_name!r} vs {b.ref_attr_name!r}")
+            return
+        x, y = a.value, b.value
+        if x is None or y is None:
+            if not (x is None and y is None):
+                self.err("attr", f"{where}: attribute {a.name!r} value {x!r} vs {y!r}")
+            return
+        w = f"{where}.{a.name}"
+        if a.type == T.GRAPH:
+            self.graph(x, y, w)
+        elif a.type == T.GRAPHS:
+            if len(x) != len(y):
+                self.err("attr", f"{w}: {len(x)} graphs vs {len(y)}")
+            for i, (g, h2) in enumerate(zip(x, y)):
+                self.graph(g, h2, f"{w}[{i}]")
+        elif a.type == T.TENSOR:
+            d = _same_tensor(x, y)
+            if d:
+                self.err("attr-tensor", f"{w}: {d}")
+        elif a.type == T.TENSORS:
+            if len(x) != len(y):
+                self.err("attr", f"{w}: {len(x)} tensors vs {len(y)}")
+            for t, u in zip(x, y):
+                d = _same_tensor(t, u)
+                if d:
+                    self.err("attr-tensor", f"{w}: {d}")
+        elif a.type == T.FLOAT:
+            if _f32(x) != _f32(y):
+                self.err("attr", f"{w}: {x!r} vs {y!r}")
+        elif a.type == T.FLOATS:
+            if [_f32(v) for v in x] != [_f32(v) for v in y]:
+                self.err("attr", f"{w}: {x!r} vs {y!r}")
+        elif a.type == T.TYPE_PROTO:
+            if not _same_type(x.type, y.type) or not _same_shape(x.shape, y.shape):
+                self.err("attr", f"{w}: {x!r} vs {y!r}")
+        elif a.type in (T.INTS, T.STRINGS):
+            if list(x) != list(y):
+                self.err("attr", f"{w}: {x!r} vs {y!r}")
+        elif x != y:
+            self.err("attr", f"{w}: {x!r} vs {y!r}")
+
+    def attrs(self, A, B, where, ordered=True):
+        if (list(A) != list(B)) if ordered else (sorted(A) != sorted(B)):
+            self.err("attr", f"{where}: attribute names {list(A)} vs {list(B)}")
+        for k in A:
+            if k in B:
+                self.attr(A[k], B[k], where)
+
+    # ---- structure
+    def node(self, a, b, where):
+        if not self.bind(self.nm, self.rn, a, b, "node"):
+            return
+        if not _falsy_eq(a.name, b.name):
+            self.err("name", f"{where}: node name {a.name!r} vs {b.name!r}")
+        if (a.domain, a.op_type, a.overload) != (b.domain, b.op_type, b.overload):
+            self.err("op", f"{where}: operator {a.op_identifier()} vs {b.op_identifier()}")
+        if not _falsy_eq(a.doc_string, b.doc_string):
+            self.err("doc", f"{where}: node doc {a.doc_string!r} vs {b.doc_string!r}")
+        if dict(a.metadata_props) != dict(b.metadata_props):
+            self.err("metadata", f"{where}: node metadata {dict(a.metadata_props)} vs {dict(b.metadata_props)}")
+        if len(a.inputs) != len(b.inputs):
+            self.err("connectivity", f"{where}: {len(a.inputs)} inputs vs {len(b.inputs)}")
+        for i, (x, y) in enumerate(zip(a.inputs, b.inputs)):
+            self.value(x, y, f"{where}.in[{i}]")
+        oa, ob = _trim(a.outputs), _trim(b.outputs)        # trailing empty-named outputs are dropped by design
+        if len(oa) != len(ob):
+            self.err("connectivity", f"{where}: outputs {[v.name for v in a.outputs]} vs {[v.name for v in b.outputs]}")
+        for i, (x, y) in enumerate(zip(oa, ob)):
+            self.value(x, y, f"{where}.out[{i}]")
+        self.attrs(a.attributes, b.attributes, where)
+
+    def graph(self, a, b, where, fn=False):
+        if not self.bind(self.gm, self.rg, a, b, "graph"):
+            return
+        if fn:
+            self.fn_graphs.add(id(a))
+        elif not _falsy_eq(a.name, b.name):
+            self.err("name", f"{where}: graph name {a.name!r} vs {b.name!r}")
+        if not _falsy_eq(a.doc_string, b.doc_string):
+            self.err("doc", f"{where}: graph doc {a.doc_string!r} vs {b.doc_string!r}")
+        if dict(a.metadata_props) != dict(b.metadata_props):
+            self.err("metadata", f"{where}: graph metadata {dict(a.metadata_props)} vs {dict(b.metadata_props)}")
+        for what, xs, ys in (("inputs", list(a.inputs), list(b.inputs)), ("outputs", list(a.outputs), list(b.outputs))):
+            if len(xs) != len(ys):
+                self.err("connectivity", f"{where}: graph {what} {[v.name for v in xs]} vs {[v.name for v in ys]}")
+            if what == "outputs":
+                continue
+            for i, (x, y) in enumerate(zip(xs, ys)):
+                self.value(x, y, f"{where}.{what}[{i}]")
+        if list(a.initializers) != list(b.initializers):
+            self.err("initializers", f"{where}: initializer keys {list(a.initializers)} vs {list(b.initializers)}")
+        for k, x in a.initializers.items():
+            if k in b.initializers:
+                self.value(x, b.initializers[k], f"{where}.init[{k}]")
+        na, nb = list(a), list(b)
+        if len(na) != len(nb):
+            self.err("nodes", f"{where}: {len(na)} nodes vs {len(nb)}")
+        for i, (x, y) in enumerate(zip(na, nb)):
+            self.node(x, y, f"{where}/{i}:{x.op_type}")
+        for i, (x, y) in enumerate(zip(a.outputs, b.outputs)):
+            self.value(x, y, f"{where}.outputs[{i}]")
+
+    def model(self, m1, m2):
+        hdr = lambda m: (m.ir_version, m.producer_name or None, m.producer_version or None, m.domain or None,  # noqa: E731
+                         m.model_version or None, m.doc_string or None, dict(m.metadata_props),
+                         tuple(m.opset_imports.items()))
+        if hdr(m1) != hdr(m2):
+            self.err("header", f"model header {hdr(m1)} vs {hdr(m2)}")
+        self.graph(m1.graph, m2.graph, "main")
+        f1, f2 = list(m1.functions.values()), list(m2.functions.values())
+        if [f.identifier() for f in f1] != [f.identifier() for f in f2]:
+            self.err("functions", f"function identifiers {[f.identifier() for f in f1]} vs {[f.identifier() for f in f2]}")
+        for x, y in zip(f1, f2):
+            w = "fn:" + x.name
+            if (x.doc_string or None, dict(x.opset_imports), dict(x.metadata_props)) != \
+                    (y.doc_string or None, dict(y.opset_imports), dict(y.metadata_props)):
+                self.err("functions", f"{w}: doc/opsets/metadata differ")
+            self.attrs(x.attributes, y.attributes, w, ordered=False)      # the proto keeps defaults / no-defaults apart
+            self.graph(x.graph, y.graph, w, fn=True)
+
+    def links(self):
+        """Redundant links, compared through the finished bijection: producer/index, uses (as sets), owning graph."""
+        for a, b, where in self.vpairs:
+            pa, pb = a.producer(), b.producer()
+            if (pa is None) != (pb is None) or (pa is not None and (self.nm.get(id(pa)) is not pb or a.index() != b.index())):
+                self.err("producer", f"{where}: value {a.name!r} producer/index {getattr(pa, 'name', None)!r}/{a.index()} "
+                                     f"vs {getattr(pb, 'name', None)!r}/{b.index()}")
+            ua = set()
+            for u in a.uses():
+                n2 = self.nm.get(id(u.node))
+                ua.add((id(n2) if n2 is not None else ("outside", id(u.node)), u.idx))
+            ub = {(id(u.node), u.idx) for u in b.uses()}
+            if ua != ub:
+                self.err("uses", f"{where}: value {a.name!r} uses {[(u.node.name, u.idx) for u in a.uses()]} "
+                                 f"vs {[(u.node.name, u.idx) for u in b.uses()]}")
+            ga, gb = a.graph, b.graph
+            if (ga is None) != (gb is None) or (ga is not None and self.gm.get(id(ga)) is not gb):
+                self.err("owner", f"{where}: value {a.name!r} graph {getattr(ga, 'name', None)!r} vs {getattr(gb, 'name', None)!r}")
+        for i, b in self.nm.items():
+            a = self.rn[id(b)]
+            ga, gb = a.graph, b.graph
+            if (ga is None) != (gb is None) or (ga is not None and self.gm.get(id(ga)) is not gb):
+                self.err("owner", f"node {a.name!r} graph differs after the round trip")
+
+
+def _tensor_type(t):
+    import onnx_ir as ir
+    return ir.TensorType(t.dtype)
+
+
+# --------------------------------------------------------------------------- the hypothesis, re-stated in Python
+
+BENIGN = {"node-name-none", "init-no-info"}       # conditions only the Gallina statement needs (see C03_LOG)
+
+
+def py_serializable(model) -> list:
+    """Names of the conditions of `serializable` that the model breaks ([] = serializable).  Written against
+    public accessors; mirrors Iso.serializable_b condition by condition."""
+    import onnx_ir as ir
+    T = ir.AttributeType
+    R = Reach(model)
+    bad = set()
+    if any(c > 1 for c in R.refs.values()):
+        bad.add("shared-graph")
+    ids = [(f.domain, f.name, f.overload) for f in model.functions.values()]
+    if len(set(ids)) != len(ids):
+        bad.add("dup-function-id")
+    fn_graphs = {id(f.graph) for f in model.functions.values()}
+    visiting = set()
+
+    def table_of(g):
+        entries = []
+        ins = {id(v) for v in g.inputs}
+        for v in g.inputs:
+            entries.append(v)
+        for v in g.initializers.values():
+            if id(v) not in ins:
+                entries.append(v)
+        for n in g:
+            entries += list(n.outputs)
+        return [(v.name, v) for v in entries if v.name]
+
+    def lookup(name, scopes):
+        for tbl in scopes:
+            for k, v in tbl:
+                if k == name:
+                    return v
+        return None
+
+    def scope(g, outer, fn):
+        if id(g) in visiting:
+            bad.add("cyclic-graph")
+            return
+        visiting.add(id(g))
+        ins = list(g.inputs)
+        if len({id(v) for v in ins}) != len(ins):
+            bad.add("input-twice")
+        if any(not v.name for v in ins):
+            bad.add("input-unnamed")
+        for k, v in g.initializers.items():
+            if v.name != k or not k:
+                bad.add("init-key")
+            if v.const_value is None:
+                bad.add("init-no-const")
+            if not any(v is x for x in ins) and value_payload_key(v) is None:
+                bad.add("init-no-info")
+        tbl = table_of(g)
+        names = [k for k, _ in tbl]
+        if len(set(names)) != len(names):
+            bad.add("dup-name")
+        scopes = [tbl] + outer
+        for n in g:
+            if n.name is None:
+                bad.add("node-name-none")
+            for v in n.inputs:
+                if v is None:
+                    continue
+                if not v.name:
+                    bad.add("input-unnamed-value")
+                elif lookup(v.name, scopes) is not v:
+                    bad.add("input-unresolved")
+            for v in n.outputs:
+                if v.name is None:
+                    bad.add("output-name-none")
+                elif v.name == "" and (v.uses() or v.is_graph_output() or value_payload_key(v) is not None):
+                    bad.add("empty-output-used")
+            for a in n.attributes.values():
+                if not a.is_ref() and a.type == T.GRAPH:
+                    scope(a.value, scopes, False)
+                elif not a.is_ref() and a.type == T.GRAPHS:
+                    for sg in a.value:
+                        scope(sg, scopes, False)
+                elif attr_ser_bad(a):
+                    bad.add("attr-unserializable")
+        for v in g.outputs:
+            if not v.name or lookup(v.name, [tbl]) is not v:
+                bad.add("output-not-own")
+        if fn and len(g.initializers):
+            bad.add("function-inits")
+        visiting.discard(id(g))
+
+    scope(model.graph, [], False)
+    for f in model.functions.values():
+        scope(f.graph, [], True)
+    for v in R.values.values():
+        if any(id(u.node) not in R.member_nodes for u in v.uses()):
+            bad.add("use-outside")
+        if v.const_value is not None and not v.is_initializer():
+            bad.add("const-not-init")
+    return sorted(bad)
+
+# --------------------------------------------------------------------------- one case: implementation + oracle + Coq term
+
+CASE_HEADER_C03 = CASE_HEADER + "From IRV Require Import C03.Inv C03.Iso.\n"
+
+
+def describe_model(model) -> str:
+    try:
+        return str(model)[:3000]
+    except Exception as e:  # noqa: BLE001
+        return f"<unprintable model: {type(e).__name__}>"
+
+
+def run_case(recipe: dict, want_term: bool = True, repair=None) -> dict:
+    """Build the model of a recipe, run to_proto twice and from_proto on the implementation, evaluate the
+    property oracle, and (want_term) produce the Coq case term.  `repair(model)` is applied before everything
+    else (known-finding attribution)."""
+    import onnx_ir as ir
+    model, env = build(recipe)
+    res = {"model": model, "env": env, "oracle": [], "term": None, "unmodelled": [], "ser": None, "conds": None}
+    if model is None:
+        res["outcome"] = "no-model"
+        return res
+    if repair is not None:
+        repair(model)
+    from harness.props import c17
+    conds = py_serializable(model)
+    inv = c17.oracle_invariants(model)        # C01's use-def / ownership invariants (a rejected edit may break them)
+    res["conds"], res["inv"] = conds, inv
+    enforce_iso = all(c in BENIGN for c in conds) and not inv
+    # ---- converter (before to_proto): heap + observation with one interner for the whole case
+    it = Interner()
+    heap = mdl = o0 = None
+    if want_term:
+        try:
+            heap, mdl, _ = ir_heap(model, it, tensor_key_fn=tensor_key_serialized)
+            o0 = ir_obs(model, it, tensor_key_fn=tensor_key_serialized)
+        except Unmodelled as e:
+            res["unmodelled"].append(str(e))
+        except Exception as e:  # noqa: BLE001
+            res["unmodelled"].append(f"converter: {type(e).__name__}: {e}"[:120])
+    # ---- (a) + (b): snapshots around two serializations
+    s0 = snapshot(model)
+    q1 = q2 = None
+    try:
+        q1 = ir.to_proto(model)
+        res["ser"] = "ok"
+    except RecursionError:
+        res["ser"] = "raise:RecursionError"
+    except Exception as e:  # noqa: BLE001
+        res["ser"] = "raise:" + type(e.__cause__ or e).__name__
+    s1 = snapshot(model)
+    res["oracle"] += snapshot_diff(s0, s1)
+    if q1 is not None:
+        res["oracle"] += tensor_names_aligned(model)
+        try:
+            q2 = ir.to_proto(model)
+            if q1 != q2:
+                res["oracle"].append("twice: the second to_proto(model) differs from the first")
+        except Exception as e:  # noqa: BLE001
+            res["oracle"].append(f"twice: the second to_proto(model) raises {type(e.__cause__ or e).__name__}")
+        res["oracle"] += snapshot_diff(s1, snapshot(model))
+    elif enforce_iso:
+        res["oracle"].append(f"roundtrip: to_proto raises {res['ser']} on a serializable model")
+    # ---- (c): round trip
+    m2 = None
+    if q1 is not None:
+        try:
+            m2 = ir.from_proto(copy.deepcopy(q1))
+            res["deser"] = "ok"
+        except Exception as e:  # noqa: BLE001
+            res["deser"] = "raise:" + type(e.__cause__ or e).__name__
+            if enforce_iso:
+                res["oracle"].append(f"roundtrip: from_proto(to_proto(model)) raises {res['deser']} on a serializable model")
+        if m2 is not None:
+            iso = IsoCheck(model, m2).bad
+            res["iso"] = iso
+            if enforce_iso:
+                res["oracle"] += iso
+    res["outcome"] = ("inconsistent-ir" if inv else "serializable" if not conds else "benign" if enforce_iso
+                      else "not-serializable") + "/" + \
+                     (res["ser"] if q1 is None else "ser-ok/" + res.get("deser", "?"))
+    res["m2"], res["q1"] = m2, q1
+    # ---- Coq term
+    if want_term and heap is not None:
+        try:
+            o1 = ir_obs(model, it, tensor_key_fn=tensor_key_serialized)
+            pc = ProtoConv(it)
+            q = "None" if q1 is None else f"(Some {pc.model(q1)})"
+            o2 = "None" if m2 is None else f"(Some {ir_obs(m2, it)})"
+            res["unmodelled"] += list(pc.unmodelled)
+            if it.norm_failed:
+                res["unmodelled"].append("payload normalisation failed")
+            if it.nonstr:
+                res["unmodelled"].append("names that are not str")
+            flag = (not conds) and not inv
+            res["flag"] = flag
+            res["term"] = (f"({it.norm_table()}, {heap}, {mdl}, {o0}, {q}, {o1}, {o2}, {common.cbool(flag)})")
+        except Unmodelled as e:
+            res["unmodelled"].append(str(e))
+    return res
+
+
+PREDICATES = [
+    ("agree_heap", "agree_heap h m o0"),
+    ("agree_ser", "agree_ser np h m q"),
+    ("agree_after_ser", "agree_after_ser np h m o1"),
+    ("agree_roundtrip", "agree_roundtrip np h m o2"),
+    ("iso_statement", "iso_statement_b np h m"),
+    ("serializable_flag", "Bool.eqb (inv_b h && serializable_b h m) f"),
+]
+
+
+def _parse_lists(out: str) -> list:
+    lists = []
+    for m in re.finditer(r"=\s*(\[[^\]]*\]|nil)\s*:\s*list nat", out):
+        body = m.group(1)
+        lists.append([] if body == "nil" else [int(x) for x in re.findall(r"\d+", body)])
+    return lists
+
+
+def correspondence(ck, terms: list, tag: str) -> dict:
+    """Predicate name -> indices (into terms) on which it is false."""
+    files, chunk = [], 100
+    for i in range(0, len(terms), chunk):
+        text = CASE_HEADER_C03 + (
+            "Definition cases : list (list (N * N) * heap * model * obs * option mproto * obs * option obs * bool) :=\n  "
+            + "[" + ";\n  ".join(terms[i:i + chunk]) + "].\n")
+        for _, body in PREDICATES:
+            text += f"Eval vm_compute in (failing (fun c => let '(np, h, m, o0, q, o1, o2, f) := c in {body}) cases).\n"
+        files.append((f"{tag}_{i // chunk}", text))
+    outs = ck.coq_eval_many(files)
+    bad = {name: [] for name, _ in PREDICATES}
+    for k, (rc, out) in enumerate(outs):
+        if rc != 0:
+            raise RuntimeError(f"case file {files[k][0]} did not compile:\n{out[-3000:]}")
+        ls = _parse_lists(out)
+        if len(ls) != len(PREDICATES):
+            raise RuntimeError("unexpected coq output:\n" + out[-2000:])
+        for (name, _), l in zip(PREDICATES, ls):
+            bad[name] += [k * chunk + j for j in l]
+    return bad
+
+
+# --------------------------------------------------------------------------- known findings, shrinking, search
+
+
+def failure_site(msg: str) -> str:
+    return ":".join(msg.split(":")[:2])
+
+
+def repair_shape_without_type(model) -> None:
+    """Remove the recorded defect site: values with a shape but no type (the shape cannot be written)."""
+    for v in Reach(model).values.values():
+        if v.type is None and v.shape is not None:
+            v.shape = None
+
+
+REPAIRS = {"shape-without-type": repair_shape_without_type}
+
+
+def known_key(ck, recipe: dict, msgs: list):
+    """A failure is attributed to a known finding only if every message is of the recorded kind and removing
+    the recorded site from the model makes the oracle pass."""
+    for k in ck._known:  # noqa: SLF001
+        if k.get("status") != "known" or k["key"] not in REPAIRS:
+            continue
+        if not all(k.get("site", {}).get("message_contains", "\0") in m for m in msgs):
+            continue
+        if not run_case(recipe, want_term=False, repair=REPAIRS[k["key"]])["oracle"]:
+            return k["key"]
+    return None
+
+
+def oracle_fails(recipe: dict) -> list:
+    try:
+        return run_case(recipe, want_term=False)["oracle"]
+    except Exception as e:  # noqa: BLE001
+        return [f"harness: error {type(e).__name__}: {e}"]
+
+
+def shrink(recipe: dict, fails) -> dict:
+    """Greedy: drop ops (last first), then attributes / inputs of node ops, while `fails` stays true."""
+    ops = list(recipe["ops"])
+    changed, rounds = True, 0
+    while changed and rounds < 8:
+        changed = False
+        rounds += 1
+        i = len(ops) - 1
+        while i >= 0:
+            if ops[i]["op"] != "model":
+                cand = ops[:i] + ops[i + 1:]
+                if fails({"ops": cand}):
+                    ops, changed = cand, True
+            i -= 1
+        for i, op in enumerate(ops):
+            if op["op"] == "node":
+                for fld in ("attrs", "ins"):
+                    j = len(op.get(fld, [])) - 1
+                    while j >= 0:
+                        op2 = dict(op)
+                        op2[fld] = op[fld][:j] + op[fld][j + 1:]
+                        cand = ops[:i] + [op2] + ops[i + 1:]
+                        if fails({"ops": cand}):
+                            ops, op, changed = cand, op2, True
+                        j -= 1
+            elif op["op"] == "value":
+                for fld in ("doc", "meta", "shape", "type"):
+                    if op.get(fld) is not None:
+                        op2 = {k: v for k, v in op.items() if k != fld}
+                        cand = ops[:i] + [op2] + ops[i + 1:]
+                        if fails({"ops": cand}):
+                            ops, op, changed = cand, op2, True
+    return {"ops": ops}
+
+
+def report_violation(ck, recipe: dict, msgs: list, kind: str) -> None:
+    site = failure_site(msgs[0])
+    small = shrink(recipe, lambda c, s=site: any(failure_site(m) == s for m in oracle_fails(c)))
+    res = run_case(small, want_term=False)
+    ck.violation({"kind": kind, "recipe": small, "model": describe_model(res["model"]), "conditions": res["conds"],
+                  "outcome": res.get("outcome"), "failures": res["oracle"][:6], "broken": ck.broken_items[:3]})
+
+
+def search(ck, diverging: list) -> None:
+    """Violation search after a broken obligation / correspondence: the diverging cases first, then fresh
+    cases (oracle only)."""
+    for recipe in diverging:
+        msgs = oracle_fails(recipe)
+        if msgs and not known_key(ck, recipe, msgs):
+            report_violation(ck, recipe, msgs, "oracle-after-broken-obligation")
+            return
+    for _ in range(1500 if not ck.thorough else 15000):
+        recipe = gen_recipe(ck.rng)
+        ck.count()
+        msgs = oracle_fails(recipe)
+        if msgs and not known_key(ck, recipe, msgs):
+            report_violation(ck, recipe, msgs, "oracle-after-broken-obligation")
+            return
+
+
+def replay_known(ck) -> None:
+    for k in ck._known:  # noqa: SLF001
+        if k.get("status") != "known":
+            continue
+        msgs = oracle_fails(k["witness"]["recipe"])
+        if msgs and all(k["site"]["message_contains"] in m for m in msgs):
+            ck.known_finding(k["key"], k["what"])
+        else:
+            ck.broken(f"known-finding-stale:{k['key']}",
+                      f"the recorded witness no longer fails as recorded on the implementation (now: {msgs[:2]})")
+
+
+def load_corpus() -> list:
+    out = []
+    d = os.path.join(common.CORPUS, "C03")
+    if os.path.isdir(d):
+        for fn in sorted(os.listdir(d)):
+            if fn.endswith(".json"):
+                with open(os.path.join(d, fn)) as f:
+                    out.append((fn, json.load(f)))
+    return out
+
+
+def recipe_features(res: dict) -> dict:
+    env = res["env"]
+    edits = [k for k, st in env.log if k in EDIT_OPS and st == "ok"]
+    model = res["model"]
+    R = Reach(model)
+    return {"edits": edits, "nesting": len(R.graphs) > 1 + len(model.functions), "functions": len(model.functions),
+            "tensors": sorted({type(t).__name__ for t in R.tensors.values()}), "values": len(R.values),
+            "nodes": len(R.nodes), "graphs": len(R.graphs)}
+
+
+# --------------------------------------------------------------------------- main
+
+
+def run(ck) -> None:
+    import logging
+    logging.disable(logging.WARNING)
+    ck.trust("Coq 8.16.1 kernel (coqc; vm_compute in case files)",
+             "harness/props/c03.py (recipe interpreter and generator, IR->heap / IR->observation / proto->term "
+             "converters, snapshots, independent isomorphism check, py_serializable)",
+             "leaf payloads are tokens computed by the library's own leaf (de)serializers (tensor, type/shape, "
+             "plain attribute, metadata): modelled, not verified here (C02/C04); Model.norm_pay is supplied per case",
+             "protobuf message equality (q1 == q2)",
+             "modelled not verified: Python recursion limit (ser_graph fuel = number of graphs + 1), quantization "
+             "annotations, device configurations, IR<10 function value-info format, per-subgraph opset imports")
+    ck.assumptions += ["onnx/protobuf/numpy as installed in /venv"]
+    ck.coverage["rule"] = ("non-trivial = model satisfying `serializable` (Python and Coq agree) that has a nested "
+                           "graph, a function or a non-empty edit history, round-tripped and compared by the "
+                           "independent isomorphism check")
+    ck.prove("C03")
+    n_cases = 420 if not ck.thorough else 9000
+    recipes = [(c["recipe"], "corpus:" + fn) for fn, c in load_corpus()]
+    recipes += [(gen_recipe(ck.rng), "gen") for _ in range(n_cases)]
+    terms, term_idx, failures = [], [], []
+    stats = {"serializable": 0, "nesting": 0, "functions": 0, "edited": 0}
+    for i, (recipe, src) in enumerate(recipes):
+        res = run_case(recipe)
+        ck.count()
+        if res["model"] is None:
+            ck.hist("outcomes", "no-model")
+            continue
+        ft = recipe_features(res)
+        ck.hist("outcomes", res["outcome"])
+        ck.hist("serializable", "yes" if not res["conds"] else "no")
+        for c in res["conds"]:
+            ck.hist("broken_conditions", c)
+        for b in recipe.get("breaks", []):
+            ck.hist("deliberate_breaks", b)
+        for k, st in res["env"].log:
+            if k in EDIT_OPS:
+                ck.hist("edit_ops", k if st == "ok" else f"{k}:{st}")
+        for t in ft["tensors"]:
+            ck.hist("tensor_kinds", t)
+        if res.get("iso"):
+            for m in res["iso"]:
+                ck.hist("iso_differences(all models)", failure_site(m))
+        if not res["conds"]:
+            stats["serializable"] += 1
+            stats["nesting"] += bool(ft["nesting"])
+            stats["functions"] += bool(ft["functions"])
+            stats["edited"] += bool(ft["edits"])
+            if ft["nesting"] or ft["functions"] or ft["edits"]:
+                ck.nontriv(("C03", common.digest(recipe["ops"])))
+            if len(ck.coverage["samples"]) < 4 and ft["nesting"] and ft["edits"] and ft["nodes"] <= 6 and not res["oracle"]:
+                ck.sample({"model": describe_model(res["model"])[:900], "edits": ft["edits"], "outcome": res["outcome"],
+                           "tensors": ft["tensors"]})
+        if res["oracle"]:
+            failures.append((recipe, res["oracle"]))
+        if res["unmodelled"] or res["term"] is None:
+            for u in res["unmodelled"] or ["no term"]:
+                ck.hist("unmodelled", u.split(":")[0][:60])
+            continue
+        terms.append(res["term"])
+        term_idx.append(i)
+    ck.coverage["traces_validated_against_impl"] = len(terms)
+    ck.coverage["serializable_cases"] = stats
+    try:
+        bad = correspondence(ck, terms, "c03")
+    except RuntimeError as e:
+        bad = {}
+        ck.broken("correspondence:case-files", str(e))
+    diverging = []
+    for name, lst in bad.items():
+        for j in lst[:2]:
+            recipe = recipes[term_idx[j]][0]
+            diverging.append(recipe)
+            r2 = run_case(recipe, want_term=False)
+            ck.broken(f"correspondence:{name}", json.dumps({
+                "cases_failing": len(lst), "recipe": recipe, "conditions": r2["conds"], "outcome": r2.get("outcome"),
+                "model": describe_model(r2["model"])[:1500]}))
+    replay_known(ck)
+    reported = set()
+    for recipe, msgs in failures:
+        key = known_key(ck, recipe, msgs)
+        if key:
+            ck.known_finding(key, next(k["what"] for k in ck._known if k["key"] == key))  # noqa: SLF001
+            ck.hist("known_finding_cases", key)
+            continue
+        site = failure_site(msgs[0])
+        if site in reported:
+            continue
+        reported.add(site)
+        report_violation(ck, recipe, msgs, "oracle")
+    if ck.broken_items and not ck.violations:
+        search(ck, diverging)
+
+
+def replay(rp: dict) -> int:
+    import logging
+    logging.disable(logging.WARNING)
+    if "recipe" not in rp:
+        print("replay names a broken obligation/correspondence, no concrete input:",
+              json.dumps(rp.get("broken"), indent=1)[:3000])
+        return 1
+    res = run_case(rp["recipe"], want_term=False)
+    print(describe_model(res["model"]))
+    print(json.dumps({"ops": [(k, st) for k, st in res["env"].log], "broken_conditions_of_serializable": res["conds"],
+                      "outcome": res.get("outcome"), "failures": res["oracle"]}, indent=1))
+    return 1 if res["oracle"] else 0
